@@ -2033,7 +2033,7 @@ class WSGIRequest:
                     return self._stream.read(size)
 
         self.content = StreamWrapper(self._environ["wsgi.input"])
-        self.match_info = {"path_info": environ["PATH_INFO"]}
+        self.match_info = {"path_info": path_from_environ(environ, "PATH_INFO")}
 
     @property
     def can_read_body(self):
